@@ -39,14 +39,19 @@ def isComponent (env : Env) (nameN : Node) : Bool :=
   | .mk .jsxMember _ _ => shouldSlots
   | _ => !env.isPat name && shouldSlots && !isKnownTag env name
 
+/-- the pragma in force: the comment annotation, else the option -/
+def effPragma (o : Opts) (st : St) : Option String :=
+  match st.pragma with
+  | some p => some p
+  | none => o.pragma
+
 /-- `get_pragma()` -/
 def getPragma (o : Opts) (st : St) : Node × St :=
-  match st.pragma with
-  | some p => (nQuoteIdent p, st)
-  | none =>
-    match o.pragma with
-    | some p => (nQuoteIdent p, st)
-    | none => st.importFromVue "createVNode"
+  match effPragma o st with
+  | some p =>
+    if isValidPragma p then (nQuoteIdent p, st)
+    else (st.err ("Error: `" ++ p ++ "` can't be used as JSX pragma: it is not an identifier.")).importFromVue "createVNode"
+  | none => st.importFromVue "createVNode"
 
 /-- `jsx_member_to_expr`: `<a.b.C>` denotes the member expression `a.b.C`, `<this.C>` denotes `this.C` -/
 def jsxMemberToExpr : Node → Node
@@ -92,21 +97,23 @@ def buildIife (elems : List Node) (st : St) : List Node × St :=
       let (out, st) := acc
       match elem with
       | .mk .arg _ [.mk .ident (n :: b :: r) ks] =>
-        if n == identName left then
+        if n == identName left && b == identBind left then
           let (name, st) := st.fresh ("_" ++ n)
           let init := nCall (nFnExpr [] [nReturn (.mk .ident (n :: b :: r) ks)]) []
           (out ++ [nArg name], { st with injectingConsts := st.injectingConsts ++ [nDeclarator name init] })
         else (out ++ [elem], st)
       | e => (out ++ [e], st)) ([], st)
 
+/-- `extend_with_slots`: the entries a `v-slots` value contributes to a slots object -/
+def slotProps (slots : Option Node) : List Node :=
+  match slots with
+  | some (.mk .object _ [.mk .list _ sp]) => sp
+  | some e => [nSpreadElement e]
+  | none => []
+
 /-- `wrap_children(elems, slot_flag, slots)` -/
 def wrapChildren (o : Opts) (elems : List Node) (slotFlag : Nat) (slots : Option Node) : Node :=
-  let props := [nKV (nIdentName "default") (nArrow [] (nArray elems))]
-  let props :=
-    match slots with
-    | some (.mk .object _ [.mk .list _ sp]) => props ++ sp
-    | some e => props ++ [nSpreadElement e]
-    | none => props
+  let props := [nKV (nIdentName "default") (nArrow [] (nArray elems))] ++ slotProps slots
   let props := if o.optimize then props ++ [nKV (nIdentName "_") (nNum slotFlag)] else props
   nObject props
 
@@ -178,10 +185,10 @@ def finishChildren (o : Opts) (elems : List Node) (isComp : Bool) (slots : Optio
           (nCond (nCall h [nArg (nAssignParen slot e)]) slot (wrapChildren o elems' slotFlag slots), st)
         else (wrapChildren o elems slotFlag slots, st)
       else if isComp then (wrapChildren o elems slotFlag slots, st) else (nArray elems, st)
-    | .mk .fnExpr _ _ => (nObject [nKV (nIdentName "default") e], st)
-    | .mk .arrow _ _ => (nObject [nKV (nIdentName "default") e], st)
+    | .mk .fnExpr _ _ => (nObject (nKV (nIdentName "default") e :: slotProps slots), st)
+    | .mk .arrow _ _ => (nObject (nKV (nIdentName "default") e :: slotProps slots), st)
     | .mk .object _ [.mk .list _ props] =>
-      (nObject (if o.optimize then props ++ [nKV (nIdentName "_") (nNum slotFlag)] else props), st)
+      (nObject (if o.optimize then (props ++ slotProps slots) ++ [nKV (nIdentName "_") (nNum slotFlag)] else props ++ slotProps slots), st)
     | _ => if isComp then (wrapChildren o elems slotFlag slots, st) else (nArray elems, st)
   | _ => if isComp then (wrapChildren o elems slotFlag slots, st) else (nArray elems, st)
 
